@@ -19,5 +19,5 @@ OkRPoly(r) == r.val = Sh!PolyEval(r.a, r.x, r.m)
 OkLine(r) == CASE r.ev = "ss" -> OkSS(r) [] r.ev = "poly" -> OkPoly(r) [] r.ev = "rsa" -> OkRSA(r)
                [] r.ev = "lambda" -> OkLambda(r) [] r.ev = "rpoly" -> OkRPoly(r) [] OTHER -> FALSE
 INSTANCE LinesTrace WITH Ok <- OkLine
-ASSUME TLCSet(1, 0) /\ TLCSet(2, {})
+ASSUME TLCSet(1, 0) /\ TLCSet(2, {}) /\ TLCSet(3, ndJsonDeserialize("trace.ndjson"))
 ====
